@@ -67,7 +67,7 @@ JudgeWith(r, name, ov, T) ==
         IF ~r.hasTrace \/ ~(\E i \in 1..Len(r.runs) : r.runs[i].test = name) THEN <<>>
         ELSE LET run == r.runs[CHOOSE i \in 1..Len(r.runs) : r.runs[i].test = name]
                  img == {<<run.image[i].a, run.image[i].b>> : i \in 1..Len(run.image)}
-                 exp == {<<a, T.mem[a]>> : a \in {x \in DOMAIN T.mem : T.mem[x] # 0}} IN
+                 exp == {<<a, T.mem0[a]>> : a \in {x \in DOMAIN T.mem0 : T.mem0[x] # 0}} IN        \* the hook reports the bank's file image
              IF img # exp \/ run.pc # T.entry
                THEN <<V(r.id, "drift", "", "test " \o name \o ": assembled image or entry differs from the layout")>>
              ELSE LET oo == Run(T, ImplOnce)                               \* the implementation-shaped run (tier 2)
@@ -104,14 +104,23 @@ JudgeTest(r, name, ov) ==
   LET T == Layout(r.prj, name) IN
   IF ~T.ok THEN <<V(r.id, "stat", "nolayout", "0")>>
   ELSE LET ri == JudgeWith(r, name, ov, T) IN
-       (* deviation TestStartsAtDirectiveAddress: narrow witness = the first byte of the test's body is not where the
-          .test directive stands (a `* =' in front of the first instruction), and the observation is exactly the run
-          that starts at the directive's address *)
-       IF T.entry = T.entry0 \/ ~Alarms(ri) THEN ri
-       ELSE LET r0 == JudgeWith(r, name, ov, [T EXCEPT !.entry = T.entry0]) IN
-            IF Alarms(r0) \/ (\E i \in 1..Len(r0) : r0[i].verdict = "deviation") THEN ri
-            ELSE <<V(r.id, "stat", Ideal(T).v, "0"),
-                   V(r.id, "deviation", "TestStartsAtDirectiveAddress", "test " \o name \o ": the cpu was started in front of the test's first instruction")>>
+       (* Deviations with a narrow witness: the layout has a second, implementation-shaped reading that differs from the ideal
+          one for THIS test, and the observation is exactly what that reading yields (no alarm, no other deviation):
+            AssertionOfOtherBankFires     an assertion assembled into a segment of another bank exists (matched by pc alone)
+            TestCodeNotAtTargetAddress    the test's bank has a relocated or unwritten segment (only the file image is loaded)
+            TestStartsAtDirectiveAddress  a `* =' precedes the test's first instruction (cpu started at the directive) *)
+       IF ~Alarms(ri) THEN ri
+       ELSE LET Alt(k) == CASE k = 1 -> [T EXCEPT !.asserts = T.allAsserts]
+                            [] k = 2 -> [T EXCEPT !.mem = T.mem0]
+                            [] k = 3 -> [T EXCEPT !.entry = T.entry0]
+                Name(k) == CASE k = 1 -> "AssertionOfOtherBankFires" [] k = 2 -> "TestCodeNotAtTargetAddress" [] k = 3 -> "TestStartsAtDirectiveAddress"
+                Explained(k) == Alt(k) # T /\ LET rk == JudgeWith(r, name, ov, Alt(k)) IN
+                                               ~Alarms(rk) /\ ~(\E i \in 1..Len(rk) : rk[i].verdict = "deviation")
+                ks == {k \in 1..3 : Explained(k)} IN
+            IF ks = {} THEN ri
+            ELSE LET k == CHOOSE k \in ks : \A j \in ks : k <= j IN
+                 <<V(r.id, "stat", Ideal(T).v, "0"),
+                   V(r.id, "deviation", Name(k), "test " \o name \o ": the outcome is that of the implementation-shaped reading, not of the property")>>
 
 RECURSIVE JudgeTests(_, _, _, _)
 JudgeTests(r, names, k, n) ==
@@ -124,9 +133,19 @@ PrefixVerdicts(r, names, k, n) ==
   ELSE LET T == Layout(r.prj, names[k])
            id == Ideal(T)
            ov == r.obs.tests[k].verdict IN
-       (IF T.ok /\ T.entry = T.entry0 /\ ((id.v = "passed" /\ ov # "ok") \/ (id.v = "failed" /\ ov # "failed"))
+       (IF T.ok /\ T.entry = T.entry0 /\ T.asserts = T.allAsserts /\ T.mem = T.mem0 /\ ((id.v = "passed" /\ ov # "ok") \/ (id.v = "failed" /\ ov # "failed"))
           THEN <<V(r.id, "violation", "", "test " \o names[k] \o ": reported " \o ov \o " but the property says " \o id.v)>> ELSE <<>>)
        \o PrefixVerdicts(r, names, k + 1, n)
+
+(* the bank of test `name' (found by a walk: the segment the test lies in) is sized beyond the address space *)
+Oversized(prj, name) ==
+  LET T == Fix(prj, name, <<>>, 6)
+      sd == SegDefs(prj) IN
+  T.ok /\ T.lay.entrySeg # "" /\
+  LET bank == (CHOOSE d \in {sd[i] : i \in 1..Len(sd)} : d.name = T.lay.entrySeg).bank
+      ds == {sd[i] : i \in {j \in 1..Len(sd) : sd[j].bank = bank}}
+      lo == CHOOSE a \in {d.start : d \in ds} : \A d \in ds : a <= d.start IN
+  \E d \in ds : d.size > 0 /\ lo + d.size > 65536
 
 (* `mos test' panicked while running test number Len(obs.tests) + 1: the tests before it are judged as usual; the crash
    itself is a recorded finding only under the witness matching the kind of panic, otherwise a violation *)
@@ -137,13 +156,21 @@ JudgeCrash(r, names) ==
     THEN <<V(r.id, "violation", "", "mos test crashed (" \o o.panic \o ") outside the run of a test of the project")>>
   ELSE LET T == Layout(r.prj, names[k])
            w == IF T.ok THEN CrashWitness(T) ELSE "nolayout" IN
-       (IF w = "nolayout" \/ (w = "silent" /\ o.panic = "overflow") THEN <<>>
+       (* deviation OversizedBankPanics: the bank of the test that was being set up has a size option that reaches past $FFFF *)
+       (IF o.panic = "slice" /\ Oversized(r.prj, names[k])
+          THEN <<V(r.id, "deviation", "OversizedBankPanics", "test " \o names[k] \o ": mos test panics loading a bank that reaches past the end of the address space")>>
+        ELSE IF w = "nolayout" \/ (w = "silent" /\ o.panic = "overflow") THEN <<>>
         ELSE IF w = "overflow" /\ o.panic = "overflow" THEN <<V(r.id, "deviation", "EmulatorOverflowAtTopOfMemory", "test " \o names[k] \o ": instruction at the top of memory crashes mos test")>>
         ELSE <<V(r.id, "violation", "", "test " \o names[k] \o ": mos test crashed (" \o o.panic \o ") instead of reporting a verdict")>>)
        \o PrefixVerdicts(r, names, 1, k - 1)
 
 Judge(r) ==
-  LET names == AllTests(r.prj)
+  LET ideal == AllTests(r.prj)
+      (* deviation TestConstantMissingAtEnumeration: tests inside `.if defined(TEST)' are not found when tests are enumerated
+         without the constant; witness: the project has such a block and the tests run are exactly the others *)
+      noTest == HasIfTest(r.prj) /\ TestsWithoutTEST(r.prj) # ideal /\ r.obs.panic = "none" /\ ~r.obs.hung /\ ~r.obs.buildFailed /\ ~r.obs.aborted
+                /\ [i \in 1..Len(r.obs.tests) |-> r.obs.tests[i].name] = TestsWithoutTEST(r.prj)
+      names == IF noTest THEN TestsWithoutTEST(r.prj) ELSE ideal
       o == r.obs
       nfail == Cardinality({i \in 1..Len(o.tests) : o.tests[i].verdict = "failed"})
       nok == Cardinality({i \in 1..Len(o.tests) : o.tests[i].verdict = "ok"}) IN
@@ -169,6 +196,7 @@ Judge(r) ==
     \o (IF ~o.summary \/ o.passed # nok \/ o.failed # nfail \/ o.result # (IF nfail > 0 THEN "FAILED" ELSE "ok")
           THEN <<V(r.id, "violation", "", "summary line does not count the reported verdicts")>> ELSE <<>>)
     \o JudgeTests(r, names, 1, Len(names))
+    \o (IF noTest THEN <<V(r.id, "deviation", "TestConstantMissingAtEnumeration", "tests inside .if defined(TEST) were not run")>> ELSE <<>>)
 
 Init == l = 1 /\ bad = <<>>
 Step1 == l <= Len(Rec) /\ bad' = bad \o Judge(Rec[l]) /\ l' = l + 1
